@@ -346,6 +346,7 @@ func checkProp(p *Prop, tier, onlyRun string, keepLogs, trace, validate bool) in
 				continue
 			}
 			seen[key] = true
+			replayOne := func(r *gosym.RunResult, v *gosym.Violation) (*gosym.ReplayOutcome, string, string) {
 			hp := p.pkgOf(r.Cfg.PkgPath)
 			spec := gosym.ReplaySpec{RepoDir: repoDir, PkgDir: hp.Dir, PkgName: hp.Name, Entry: r.Cfg.Entry,
 				HarnessFiles: hs.files[hp.Dir], RTDir: filepath.Join(verifDir, "rt"), Tags: p.Tags}
@@ -353,13 +354,11 @@ func checkProp(p *Prop, tier, onlyRun string, keepLogs, trace, validate bool) in
 			spec.Race = v.Ob.Kind == "race"
 			if r.Cfg.Sched && !spec.Race {
 				if err := gosym.PrepareSchedReplay(l, &spec, dir, r, v, p.InstrDirs); err != nil {
-					inconcl = append(inconcl, r.Cfg.Name+": cannot prepare schedule replay: "+err.Error())
-					continue
+					return nil, dir, r.Cfg.Name + ": cannot prepare schedule replay: " + err.Error()
 				}
 			}
 			if err := gosym.WriteReplay(dir, spec, v.Values, r.Cfg.Params); err != nil {
-				inconcl = append(inconcl, r.Cfg.Name+": cannot write replay: "+err.Error())
-				continue
+				return nil, dir, r.Cfg.Name + ": cannot write replay: " + err.Error()
 			}
 			out := gosym.RunReplay(dir, nil)
 			if !out.Reproduces(v.Ob) && r.UsedRand {
@@ -375,6 +374,36 @@ func checkProp(p *Prop, tier, onlyRun string, keepLogs, trace, validate bool) in
 				// runtime's pseudo-random pick, so the replay is repeated until the pick matches
 				for try := 0; try < 3 && !out.Reproduces(v.Ob) && !out.TimedOut; try++ {
 					out = gosym.RunReplay(dir, nil)
+				}
+			}
+				return out, dir, ""
+			}
+			out, dir, perr := replayOne(r, v)
+			if perr != "" {
+				inconcl = append(inconcl, perr)
+				continue
+			}
+			if !out.Reproduces(v.Ob) && r.Cfg.Sched && v.Ob.Kind != "race" && !out.TimedOut && r.ExecSecs+r.SolveSecs < 60 {
+				// the solver's model (hence the schedule) differs between runs of the same query and
+				// the native schedule controller does not reproduce every one of them: derive the
+				// counterexample again (the solver's verdict stays the decision; this only looks for
+				// a schedule that the native controller can drive)
+				for again := 0; again < 3 && !out.Reproduces(v.Ob); again++ {
+					c2 := r.Cfg
+					r2 := gosym.Run(l, c2)
+					for _, v2 := range r2.Violations {
+						if v2.Ob.Kind == v.Ob.Kind && v2.Ob.Label == v.Ob.Label {
+							if o2, d2, e2 := replayOne(r2, v2); e2 == "" {
+								if o2.Reproduces(v2.Ob) {
+									os.RemoveAll(dir)
+									out, dir, v = o2, d2, v2
+								} else if d2 != dir {
+									os.RemoveAll(d2)
+								}
+							}
+							break
+						}
+					}
 				}
 			}
 			os.WriteFile(filepath.Join(dir, "output.txt"), []byte(out.Output), 0o644)
